@@ -1644,6 +1644,15 @@ def make_builtins(I):
     reg("oct", lambda v: oct(concrete_int(v)))
 
     def b_open(path, *a, **k):
+        pth = path.path if isinstance(path, PathVal) else path
+        data = getattr(I, "loadtxt_data", None)
+        if isinstance(pth, str) and pth.endswith(".nff") and data:
+            # the probe table the rule supplies for numpy.loadtxt, as the text of the file (a reader may parse it itself)
+            def cell(x):
+                e = to_expr(x)
+                return str(int(e)) if e.is_Integer else repr(float(e))
+            lines = ["E(eV)\tf1\tf2\n"] + ["\t".join(cell(c) for c in row) + "\n" for row in data]
+            return TextFile(lines, pth)
         raise AnalysisError(f"open({path!r}): the rule did not provide this file")
     reg("open", b_open)
     for exc in ("ValueError", "TypeError", "KeyError", "RuntimeError", "AttributeError",
